@@ -3,6 +3,7 @@
 package main
 
 import (
+	"sync/atomic"
 	"encoding/json"
 	"fmt"
 	"net/http"
@@ -372,4 +373,24 @@ func clientRejection(shape int) *idpFault {
 		return &idpFault{status: 400, body: "invalid_grant"}
 	}
 	return &idpFault{status: 400, body: `{"error":"invalid_grant","error_description":"revoked"}`}
+}
+
+var decoySeq int64
+
+// brokenTokenResponse: a 200 answer that is not a decodable token response. Shape 0 is a gateway's HTML page; the others are JSON documents that DO carry
+// (decoy) tokens but with a member of the wrong type, so the relying party's decoder fails while holding token material in its hands - whatever it
+// logs about the failure must not contain them (the decoys are registered with the log / output monitors like real tokens).
+func brokenTokenResponse(shape int) *idpFault {
+	if shape%3 == 0 {
+		return &idpFault{status: 200, body: "<html>not json</html>"}
+	}
+	n := atomic.AddInt64(&decoySeq, 1)
+	at := fmt.Sprintf("eyJhbGciOiJSUzI1NiJ9.decoy-access-token-%d.s3cr3t-signature", n)
+	rt := fmt.Sprintf("decoy-refresh-token-%d-s3cr3t", n)
+	addSecret("access_token", at)
+	addSecret("refresh_token", rt)
+	if shape%3 == 1 {
+		return &idpFault{status: 200, body: fmt.Sprintf(`{"access_token":%q,"token_type":"Bearer","refresh_token":%q,"expires_in":"3600"}`, at, rt)}
+	}
+	return &idpFault{status: 200, body: fmt.Sprintf(`{"access_token":%q,"token_type":{"kind":"Bearer"},"refresh_token":%q,"expires_in":3600}`, at, rt)}
 }
